@@ -204,7 +204,10 @@ func runC18(w *World, r *Report, tier string) {
 			r.Undecided("R5", k, w.ipos(cc), "connect() result not tested")
 			continue
 		}
-		isKA := func(in ssa.Instruction) bool { _, g := in.(*ssa.Go); return g && w.callKey(asCall(in)) == "xmpp.keepalive" }
+		isKA := func(in ssa.Instruction) bool {
+			_, g := in.(*ssa.Go)
+			return g && w.callKey(asCall(in)) == "xmpp.keepalive"
+		}
 		bad := ""
 		n := 0
 		walkPaths(*start, nil, nil, 20000, func(path []ssa.Instruction, end pathEnd) {
